@@ -128,6 +128,21 @@ def needProp (F : TFacts) (site : String) (v : J) (p : String) : Prog (List J) :
   | none => .panic site
   | some xs => .ret xs
 
+/-- is this inbox's actor among the actors of the Follow?  (a Follow without actor property cannot be ours) -/
+def acceptMatchFollow (F : TFacts) (actorIRI followId : Iri) (actors : Option (List J)) : Prog (Option Iri) :=
+  match actors with
+  | none => pure none
+  | some actors => do
+    let me ← (if actors.isEmpty then pure actorIRI else strOf "accept: actorIRI.String() on nil" actorIRI)
+    let hit ← findMe F "accept: id.String() on nil" actors me
+    pure (if hit && followId != nilIri then some followId else none)
+
+/-- a property the code checks for nil, answering with an error -/
+def needPropE (F : TFacts) (v : J) (p : String) : Prog (List J) :=
+  match prop F v p with
+  | none => .fail .lib
+  | some xs => .ret xs
+
 /-- the first Follow among the Accept's objects that names this actor: its id -/
 def acceptFindFollow (F : TFacts) (box : Iri) (op : List J) (actorIRI : Iri) : Prog (Option Iri) :=
   op.foldlM (fun (found : Option Iri) j =>
@@ -135,23 +150,20 @@ def acceptFindFollow (F : TFacts) (box : Iri) (op : List J) (actorIRI : Iri) : P
       let t ← valueOrFetch F box j
       if !F.isOrExt "Follow" (typeName t) then pure none else do
         let followId ← liftLib (getId F t)
-        let actors ← needProp F "accept: actors.Begin() on nil actor property of the Follow" t "actor"
-        let me ← (if actors.isEmpty then pure actorIRI else strOf "accept: actorIRI.String() on nil" actorIRI)
-        let hit ← findMe F "accept: id.String() on nil" actors me
-        pure (if hit && followId != nilIri then some followId else none)) none
+        acceptMatchFollow F actorIRI followId (prop F t "actor")) none
 
 /-- verify against the Follow stored locally under that id (run under its lock) -/
 def acceptVerifyStored (F : TFacts) (followIRI actorIRI : Iri) (activityActors : List J) : Prog Unit := do
   let t ← Op.get followIRI
   let t ← needVal "accept: IsOrExtends on nil value" t
   if !F.isOrExt "Follow" (typeName t) then Prog.fail .lib else do
-    let actors ← needProp F "accept: actors.Begin() on nil actor property of the stored Follow" t "actor"
+    let actors ← needPropE F t "actor"
     let me ← (if actors.isEmpty then pure actorIRI else strOf "accept: actorIRI.String() on nil" actorIRI)
     let ok ← findMe F "accept: id.String() on nil" actors me
     if !ok then Prog.fail .lib else do
       let acceptIds ← idsM F activityActors
       let acceptIds ← strsOf "accept: id.String() on nil" acceptIds
-      let followObj ← needProp F "accept: followObj.Begin() on nil object property of the stored Follow" t "object"
+      let followObj ← needPropE F t "object"
       let objIds ← idsM F followObj
       let objIds ← strsOf "accept: id.String() on nil" objIds
       if acceptIds.all objIds.contains then pure () else Prog.fail .lib
